@@ -1364,5 +1364,7 @@ func main() {
 		}
 		stripCase(o, "strip.random", sb.String())
 	}
+	// 7. formats with explicit argument indexes, %d and a lone % (phase 4, ext.go)
+	extCases(o)
 	_ = hex.EncodeToString
 }
